@@ -80,6 +80,18 @@ CHECKS["C11"] = dict(
     technique="symbolic execution of rustc MIR (mirsym) over a POSIX file-system model with permission bits and symlinks + z3; witness replay as an unprivileged user on a real temp dir",
     note="Process is the owner of every node and not root; depth <= 2, <= 2 entries per directory. " + BASE_NOTE)
 
+CHECKS["C12"] = dict(
+    text="Fault enumeration by the solver over the real code: the struct-API layer request (C01 universe) and the LayerRef writers "
+         "(write_metadata, write_sboms, write_exec_d_programs) are executed from MIR with one injected I/O fault whose position k is an SMT "
+         "variable ranging over every registered mutating or data-reading file-system call of the path (open-for-write, data write, read, "
+         "mkdir, unlink, rmdir, chmod, opendir, copy, recursive removal; std::fs::File/BufWriter handles incl. their Drop are modelled). On "
+         "every path where the fault hits, the call must return Err. Counterexamples and a sample of faulted paths are replayed on the "
+         "real build with an LD_PRELOAD injector that fails the corresponding libc call with EIO.",
+    design_ref="DESIGN.md §5 C12",
+    technique="symbolic execution of rustc MIR (mirsym) with the fault position as an SMT variable + z3; replay with an LD_PRELOAD fault injector",
+    note="Covers the struct layer API and LayerRef writers; trait-API handling and phase-output writers are outside this check's claim. "
+         "Stricter than the statement (any hit fault must surface as Err). Metadata probes (exists/is_dir) are not fault positions. " + BASE_NOTE)
+
 NOT_YET = "check not built yet in this round (see DESIGN.md §9 build order); no claim is made"
 NOT_APPLICABLE = {}
 ALL = [f"C{i:02d}" for i in range(1, 21)]
